@@ -613,6 +613,13 @@ char *ctime(const time_t *t) { if (!sim_active()) return REAL(ctime)(t); nonreen
 char *asctime(const struct tm *t) { if (!sim_active()) return REAL(asctime)(t); nonreentrant(2, "asctime"); return REAL(asctime)(t); }
 char *inet_ntoa(struct in_addr a) { if (!sim_active()) return REAL(inet_ntoa)(a); nonreentrant(3, "inet_ntoa"); return REAL(inet_ntoa)(a); }
 
+// The standard streams are the calling program's objects: their buffer and buffering mode are its state (what it has set up, what it will
+// print through next). A wrapped call that reconfigures one of them leaves that behind in the caller - reported like the static objects above.
+int setvbuf(FILE *f, char *buf, int mode, size_t size) { if (sim_active() && (f == stdout || f == stderr || f == stdin)) { SimScope s; sim_step(); sim_event("nonreentrant", f == stdout ? "setvbuf(stdout)" : f == stderr ? "setvbuf(stderr)" : "setvbuf(stdin)"); } return REAL(setvbuf)(f, buf, mode, size); }
+void setbuf(FILE *f, char *buf) { setvbuf(f, buf, buf ? _IOFBF : _IONBF, BUFSIZ); }
+void setbuffer(FILE *f, char *buf, size_t size) { setvbuf(f, buf, buf ? _IOFBF : _IONBF, size); }
+void setlinebuf(FILE *f) { setvbuf(f, nullptr, _IOLBF, 0); }
+
 // ---------------------------------------------------------------- calls that wait for somebody else
 unsigned sleep(unsigned n) { if (!sim_active()) return REAL(sleep)(n); blocks("sleep"); return 0; }
 int usleep(useconds_t n) { if (!sim_active()) return REAL(usleep)(n); blocks("usleep"); return 0; }
